@@ -9,7 +9,7 @@ type gen struct {
 	budget int
 }
 
-var flagChoices = []int{15, 15, 15, 15, 15, 13, 7, 5, 15, 11}
+var flagChoices = []int{15, 15, 15, 15, 15, 15, 15, 15, 13, 13, 7, 5, 15, 11}
 
 func (g *gen) leaf(inContract bool) Stmt {
 	r := g.r
@@ -33,8 +33,10 @@ func (g *gen) leaf(inContract bool) Stmt {
 		return Stmt{K: "nset", Val: 1000 + 10*r.Intn(4)}
 	case k < 28:
 		return Stmt{K: "nget", Key: 1 + r.Intn(3)}
-	case k < 31:
+	case k < 30:
 		return Stmt{K: "xfer", Amt: 1 + r.Intn(3)}
+	case k < 31:
+		return Stmt{K: "deploy", D: 1 + r.Intn(2)}
 	case k < 36:
 		return Stmt{K: "throw"}
 	case k < 38:
